@@ -6,6 +6,6 @@ while [ ! -e /tmp/seedq.stop ]; do
   line=$(grep -vxFf /tmp/seedq.done /tmp/seedq.txt | head -1)
   if [ -z "$line" ]; then sleep 5; continue; fi
   set -- $line
-  /verif/tools/seedin.py "$1" "$2" "$3" "$4" > /tmp/seedlogs/$4.log 2>&1
+  /verif/tools/seedin.py "$1" "$2" "$3" "$4" --checks none > /tmp/seedlogs/$4.log 2>&1
   echo "$line" >> /tmp/seedq.done
 done
